@@ -34,10 +34,10 @@
 /*@unit {'name':'c18_named_from', 'props':['C18'], 'entry':'h_from', 'enforce':'NameAndFeatureRef_from', 'defines':['FIND'], 'unwind':4,
   'claims':'NameAndFeatureRef(FeatureRef const &p) stores p.getId() and &p: every entry of m_pNamedFeats built by readFeats satisfies m_name == m_pFRef->m_id (qsort moves whole entries), so the ref findFeatureRef(name) returns has id == name'}@*/
 
-/*@unit {'name':'c18_readsill', 'props':['C18','C01'], 'entry':'h_readsill', 'enforce':'SillMap_readSill', 'replace':['readSill_entry'], 'min_loops':1, 'defines':['SILL=1'], 'timeout':400,
+/*@unit {'name':'c18_readsill', 'props':['C18','C01','C16'], 'entry':'h_readsill', 'enforce':'SillMap_readSill', 'replace':['readSill_entry'], 'min_loops':1, 'defines':['SILL=1'], 'timeout':400,
   'assumptions':['Face::Table constructor: hands out the client buffer and its exact length (contract: unit c16_ctor)', 'new LangFeaturePair[n]: NULL or an exact-size array of n elements; the default constructor (m_lang 0, m_pFeatures NULL) is applied at the ghost index, other elements arbitrary. A NULL result models a build with -fcheck-new (operator new[] of CLASS_NEW_DELETE is not noexcept: with standard semantics a failed allocation is undefined behaviour before readSill can test it)', 'readSill_entry contract (proved by unit c18_sill_entry on the cut statements)', 'the table values the contract speaks about (version, count, entry g_i, setting g_j) are read once by the harness with the layout of the format document'],
   'claims':'SillMap::readSill (whole function; Sill table of any length up to the harness bound with arbitrary bytes, or absent; the statements of one language entry replaced by the contract proved in c18_sill_entry): every read inside the table; no table => accepted and empty; accepted => version 1.0, 12-byte header, and if languages are kept the 8-byte entry array and every setting list lie inside the table; languages are dropped only if the face has no features or the array cannot be allocated; refused only for a short table, wrong version, entry array or setting list outside the table, or a failed allocation; m_langFeats is allocated at most once with exactly numLanguages elements and indexed only below that; accepted => for every entry i: m_lang is the tag of record i, m_pFeatures a fresh copy of the defaults that received exactly the listed settings in table order and then the language id on feature 1; on every path (also refusal half-way) each vector created for entry i is stored in entry i and untouched entries hold NULL (what ~SillMap needs to free everything exactly once)'}@*/
-/*@unit {'name':'c18_sill_entry', 'props':['C18','C01'], 'entry':'h_entry', 'enforce':'readSill_entry', 'min_loops':1, 'defines':['SILL=1'], 'timeout':900,
+/*@unit {'name':'c18_sill_entry', 'props':['C18','C01','C16'], 'entry':'h_entry', 'enforce':'readSill_entry', 'min_loops':1, 'defines':['SILL=1'], 'timeout':900,
   'assumptions':['findFeatureRef: arbitrary result (contract: c18_find); applyValToFeature: arbitrary result, its writes (the destination vector and the word buffer it owns, frame proved in c18_apply) are not modelled because readSill never reads the vector again; new Features(defaults): NULL (-fcheck-new) or a fresh opaque object (Vector copy constructor not modelled)', 'header facts assumed by the harness: table >= 12 + 8*numLanguages bytes, array of exactly numLanguages pairs (established in c18_readsill: preconditions of the call)'],
   'claims':"one language entry of SillMap::readSill (body of the outer loop; any entry index below numLanguages, entry array inside the table as the header test guarantees): reads exactly the 8-byte record and, when the list is accepted, 8 bytes per setting, all inside the table (a list with offset + 8*numSettings beyond the table is refused before anything is created; an empty list is never read); the cursor advances by exactly 8; the stores go to m_langFeats[i] only; for every setting j (ghost index, loop contract): findFeatureRef is asked for the feature id of setting j, and exactly when it returns a feature that feature's applyValToFeature is called once with the 16-bit value of setting j on this entry's own fresh copy of the defaults, before the next lookup; after the last setting findFeatureRef(1) and, if found, applyValToFeature(language tag); number of applies == number of successful lookups; refusal leaves m_pFeatures NULL and creates nothing that is not stored"}@*/
 
